@@ -38,7 +38,7 @@ func main() {
 	replays := flag.String("replays", "/verif/replays", "directory for replay files")
 	findings := flag.String("findings", "", "known_findings.json")
 	tlclog := flag.String("tlclog", "", "file receiving TLC's own output lines")
-	hang := flag.Duration("hang", 60*time.Second, "watchdog limit per call")
+	hang := flag.Duration("hang", 600*time.Second, "watchdog limit per call: a call that has not returned after this long is reported as a hang (generous, so that a starved machine is never mistaken for one)")
 	workers := flag.Int("workers", runtime.NumCPU(), "parallel workers")
 	opt := flag.String("opt", "", "family-specific options k=v,k=v")
 	journal := flag.String("journal", "", "directory: every worker writes the line it is about to execute to <dir>/w<i> (used to find the input of a fatal crash)")
